@@ -92,6 +92,8 @@ func (r *poolRun) run() {
 			r.opConvert()
 		case x < 93:
 			r.opSecondBatch(cn)
+		case x < 95:
+			r.opExecuteParked(cn)
 		default:
 			r.opEndBlock()
 		}
@@ -743,7 +745,7 @@ func (r *poolRun) opBridgeCallResult(cn string) {
 	b := r.bridge(cn)
 	var open []uint64
 	for n, cr := range r.calls[cn] {
-		if cr.Loc == "open" && !r.ext[cn].callDone[n] {
+		if cr.Loc == "open" && !r.ext[cn].callResulted[n] {
 			open = append(open, n)
 		}
 	}
@@ -762,7 +764,8 @@ func (r *poolRun) opBridgeCallResult(cn string) {
 	}
 	b.ExtHeight = h
 	success := r.rng.IntN(2) == 0
-	r.ext[cn].callDone[cnn] = true
+	r.ext[cn].callResulted[cnn] = true
+	r.ext[cn].callDone[cnn] = success
 	b.EventNonce++
 	n := b.EventNonce
 	before := r.snapshot()
@@ -775,7 +778,40 @@ func (r *poolRun) opBridgeCallResult(cn string) {
 		// released by the clean-up inside the observing vote although the external chain ran it
 		return
 	}
-	before = r.snapshot()
+	if r.rng.IntN(3) == 0 {
+		// an observed result is only parked: anybody may execute it later. Until then the call record stays
+		if r.parkedResults == nil {
+			r.parkedResults = map[string][]parkedResult{}
+		}
+		r.parkedResults[cn] = append(r.parkedResults[cn], parkedResult{event: n, call: cnn, success: success})
+		r.res.Count("results_parked", 1)
+		return
+	}
+	r.executeResult(cn, n, cnn, success)
+}
+
+type parkedResult struct {
+	event, call uint64
+	success     bool
+}
+
+// opExecuteParked: somebody executes a bridge-call result that was observed earlier.
+func (r *poolRun) opExecuteParked(cn string) {
+	ps := r.parkedResults[cn]
+	if len(ps) == 0 {
+		return
+	}
+	i := r.rng.IntN(len(ps))
+	p := ps[i]
+	r.parkedResults[cn] = append(append([]parkedResult{}, ps[:i]...), ps[i+1:]...)
+	r.res.Count("parked_results_executed", 1)
+	r.executeResult(cn, p.event, p.call, p.success)
+}
+
+func (r *poolRun) executeResult(cn string, n, cnn uint64, success bool) {
+	b := r.bridge(cn)
+	cr := r.calls[cn][cnn]
+	before := r.snapshot()
 	er := b.ExecuteClaim(r.c.Users[3], n)
 	op := fmt.Sprintf("bridge-call-result-execute %s call=%d success=%v -> %s", cn, cnn, success, short(er.VmError()))
 	r.logf(op)
@@ -795,7 +831,7 @@ func (r *poolRun) opBridgeCallResult(cn string) {
 		r.sync(cn, op, "call>executed")
 	} else {
 		// the external execution failed: nothing left the bridge, the caller is refunded
-		r.ext[cn].callDone[cnn] = false
+		r.ext[cn].callDone[cnn] = false // (it never was: a failed external execution moves nothing)
 		r.expectDeltas(op, before, r.callRefundDeltas(cn, cr))
 		r.sync(cn, op, "call>refunded")
 	}
